@@ -485,6 +485,35 @@ func checkC12(c *Ctx, r *Report) {
 		}
 	}
 	r.Floor("C12.R6", n6, 1, "file cache constructors")
+	// ... and the wipe cannot fail silently: whatever removal EnsureCleared performs, its error is looked at (os.RemoveAll
+	// refuses "." and any path ending in "/." with EINVAL — unnoticed, the previous run's files stay in the directory,
+	// uncounted, never expired or evicted)
+	for _, f := range c.FuncsNamed("(reservoir/utils/assertedpath.AssertedPath).EnsureCleared") {
+		nRm := 0
+		for _, g := range pkgGroup(li, f) {
+			eachInstr(g, func(in ssa.Instruction) {
+				call, ok := in.(*ssa.Call)
+				if !ok {
+					return
+				}
+				n := calleeName(call)
+				if n != "os.RemoveAll" && n != "os.Remove" {
+					return
+				}
+				nRm++
+				used := false
+				if refs := call.Referrers(); refs != nil {
+					for _, ref := range *refs {
+						if _, isDbg := ref.(*ssa.DebugRef); !isDbg {
+							used = true
+						}
+					}
+				}
+				r.Check(used, "C12.R6", fmt.Sprintf("%s: the error of %s is not dropped (#%d)", fnKey(g), n, nRm), c.InstrPos(call), "result used", "the directory wipe ignores the error of "+n+": for a cache directory spelled \".\" or ending in \"/.\" nothing is removed, the new process reports 0 bytes / 0 entries while the old files remain")
+			})
+		}
+		r.Floor("C12.R6", nRm, 1, "removals in EnsureCleared")
+	}
 }
 
 func n4ord(f *ssa.Function, target ssa.Instruction) int {
